@@ -76,7 +76,8 @@ def strategy_(draw, tier):
     names.append(info.poskw + info.kwonly + _NAMES_EXTRA + info.posonly[:1])
   kinds = ['set_attr', 'set_attr', 'del_attr', 'set_item', 'del_item', 'set_slice', 'set_slice', 'del_slice',
            'add_tag', 'remove_tag', 'set_tags', 'clear_tags', 'tagged_value', 'assign', 'copy_with',
-           'materialize', 'update_callable', 'update_callable_bad', 'suspend_enter', 'suspend_enter', 'suspend_exit']
+           'materialize', 'update_callable', 'update_callable_bad', 'suspend_enter', 'suspend_enter', 'suspend_exit',
+           'decorated_edit']
   ops = []
   for _ in range(draw(st.integers(1, 40 if tier == 'thorough' else 28))):
     c = draw(st.integers(0, 1))
@@ -87,8 +88,10 @@ def strategy_(draw, tier):
     idxs = list(range(-(n + 1), n + 1)) + (['V', 'V'] if info.varargs else [])
     bounds = [None, None] + list(range(-(n + 1), n + 2)) + (['V', 'V', 'V'] if info.varargs else [])
     op = {'c': c, 'k': kind}
+    if kind == 'decorated_edit':
+      op['depth'] = draw(st.integers(0, 3))
     if kind in ('set_attr', 'del_attr', 'add_tag', 'remove_tag', 'set_tags', 'clear_tags', 'tagged_value',
-                'assign', 'copy_with'):
+                'assign', 'copy_with', 'decorated_edit'):
       op['name'] = draw(st.sampled_from(names[c]))
       op['val'] = val()
       op['tag'] = draw(st.sampled_from(_TAGS))
@@ -179,6 +182,9 @@ def _do_op(cfgs, op, stack):
   elif k == 'update_callable_bad':
     # a callable without parameters: rejected (TypeError) whenever the configuration holds any argument
     fdl.update_callable(cfg, sigs.fn_p0k0d0nqn)
+  elif k == 'decorated_edit':
+    # the edit happens inside a (recursive) function decorated with @suspend_tracking()
+    _decorated(op['depth'], lambda: setattr(cfg, op['name'], op['val']))
   elif k == 'suspend_enter':
     cm = H.suspend_tracking()
     cm.__enter__()
@@ -186,6 +192,13 @@ def _do_op(cfgs, op, stack):
   elif k == 'suspend_exit':
     if stack:
       stack.pop().__exit__(None, None, None)
+
+
+@H.suspend_tracking()
+def _decorated(depth, fn):
+  if depth > 0:
+    return _decorated(depth - 1, fn)
+  return fn()
 
 
 def _in_thread(fn):
@@ -262,7 +275,11 @@ def _check(case, out, stack):
                 f'op {oi}: enabled={H.tracking_enabled()} with nesting depth {len(stack)}')
         return out
       continue
-    suspended = depth_before > 0 and not in_thread
+    suspended = (depth_before > 0 and not in_thread) or k == 'decorated_edit'
+    if not in_thread and H.tracking_enabled() != (len(stack) == 0):
+      out.add('tracking-flag-wrong-after-operation', 'mismatch', '', k,
+              f'op {oi} {op}: enabled={H.tracking_enabled()} with nesting depth {len(stack)}')
+      return out
     if k == 'copy_with' and raised is None and cfgs[c] is not old_cfg:
       # the copy carries the original's history plus the new entries; the original is untouched,
       # now and under every later edit of the copy
